@@ -40,6 +40,15 @@
 (* slices returned by its previous keep calls.  Allowed depends on neither:  *)
 (* a result is a function of the arguments of its call alone, and a result   *)
 (* handed to the caller stays what it was.                                   *)
+(* Every call of a live case is made 1, 2 or 3 times in a row with the VERY  *)
+(* SAME argument slices: same arguments, same result.                        *)
+(* A case may carry dst (aescbcaead.Seal/Open): the cipher.AEAD calling      *)
+(* convention used for the destination - nil | empty (no capacity) | room    *)
+(* (empty, capacity for the result) | tight (empty, capacity too small) |    *)
+(* prefix (content, no capacity) | prefixroom (content and capacity) |       *)
+(* overlap (plaintext[:0] / ciphertext[:0], no extra capacity) | overlaproom *)
+(* (the same, with capacity for the result).  Allowed does not depend on it: *)
+(* the appended bytes are those of dst = nil and the prefix is preserved.    *)
 (* Outcome classes: ok | keytype nonce tag ptlen ctlen unsupported (the six  *)
 (* sentinels) | error (any other error) | invalid (verify: false, nil) |     *)
 (* panic (never admissible).                                                 *)
@@ -233,6 +242,7 @@ Soft(cs, r) ==
 PadValid(cs) == cs.padV >= 1 /\ cs.padV <= 16 /\ (cs.padTail = "full" \/ (cs.padTail = "lastonly" /\ cs.padV = 1))
 IsSeq(cs) == "seq" \in DOMAIN cs
 IsLive(cs) == "conc" \in DOMAIN cs
+IsDst(cs) == "dst" \in DOMAIN cs
 
 Allowed(cs) ==
   IF cs.mut = "pad" THEN (IF PadValid(cs) THEN {"ok"} ELSE {"error"})
@@ -402,6 +412,12 @@ LiveGroup(r, fn) ==
       tl == IF fn \in AeadFns THEN r.tag ELSE TagArg(fn, r)
   IN {C(fn, r.alg, r.keyKind, kb, nl, tl, il, al, "none") @@ [conc |-> x[1], keep |-> x[2]] : il \in lens, x \in shapes}
 
+(* Destination conventions of cipher.AEAD, for every AEAD the package exposes. *)
+DstKinds == {"nil", "empty", "room", "tight", "prefix", "prefixroom", "overlap", "overlaproom"}
+DstLens == IF Small THEN {0, 1, 16, 17, 33} ELSE {0, 1, 15, 16, 17, 31, 32, 33, 64, 1000}
+DstGroup(r, fn) ==
+  {C(fn, r.alg, "oct", GoodBits(r), 16, r.tag, il, al, "none") @@ [dst |-> d] : il \in DstLens, al \in {0, 20}, d \in DstKinds}
+
 (* The case space is the disjoint union of small groups, one per (part, algorithm, entry point). *)
 G(part, alg, fn) == [part |-> part, alg |-> alg, fn |-> fn]
 Groups ==
@@ -419,6 +435,7 @@ Groups ==
   \cup {G("live", r.alg, fn) : r \in KwRows, fn \in KwFns}
   \cup {G("live", r.alg, fn) : r \in AsymRows, fn \in AsymFns}
   \cup {G("live", r.alg, "SignPrivateKey") : r \in SigRows}
+  \cup {G("dst", r.alg, fn) : r \in AeadRows, fn \in AeadFns}
   \cup {G("seq", r.alg, fn) : r \in SigRows, fn \in SigFns}
   \cup {G("seq", r.alg, fn) : r \in AsymRows, fn \in AsymCallFns}
 GroupCases(g) ==
@@ -431,10 +448,12 @@ GroupCases(g) ==
     [] g.part = "pad" -> PadGroup(g.alg, g.fn)
     [] g.part = "seq" -> SeqGroup(Row(g.alg), g.fn)
     [] g.part = "live" -> LiveGroup(Row(g.alg), g.fn)
+    [] g.part = "dst" -> DstGroup(Row(g.alg), g.fn)
 GroupOf(cs) ==
   IF cs.mut = "pad" THEN G("pad", cs.alg, cs.fn)
   ELSE IF IsSeq(cs) THEN G("seq", cs.alg, cs.fn)
   ELSE IF IsLive(cs) THEN G("live", cs.alg, cs.fn)
+  ELSE IF IsDst(cs) THEN G("dst", cs.alg, cs.fn)
   ELSE IF cs.alg \notin SupportedFor(cs.fn) THEN G("name", "", cs.fn)
   ELSE IF cs.fn \in KwFns THEN G("kw", cs.alg, cs.fn)
   ELSE IF cs.fn \in AeadFns THEN G("aead", cs.alg, cs.fn)
